@@ -344,7 +344,7 @@ impl Property for ScenarioProp {
         let mut r = self.filter(r);
         if self.flavor == Flavor::C17 {
             canary_check(&mut r);
-            if index % 512 == 5 {
+            if index % 512 == 5 && std::env::var_os("VERIF_TEARDOWN_CHECK").is_some() {
                 teardown_check(&mut r);
             }
         }
